@@ -14,6 +14,7 @@ import YaegiVerif.Generated.C02
    evf FN CLS VARIANT SUB A B DW     → y=<x:bits|x:NaN|t|f|unmodelled|noentry> g=…   float closure (Model/OpsFloat.lean);
         A, B = (f 32 N) | (f 64 N) | -      bit pattern of a float32 / float64
    conv S W N S' W'                  → y=b:<n> g=b:<n>       integer conversion
+   convs S W N                       → y=r:<code point> g=r:<code point>   string(x) of an integer variable
    outcome = b:<nat> | t | f | pdiv | pshift | preflect | unmodelled | noentry -/
 namespace YaegiVerif.Driver.C02
 open YaegiVerif YaegiVerif.Ops YaegiVerif.Spec
@@ -165,6 +166,16 @@ def handle (args : List Sexp) : String :=
          | none => "noentry"
        s!"y={y} g={spec fn a b ds dw}"
      | _, _, _, _, _, _, _, _ => "bad-op")
+  | [.atom "convs", s, w, n] =>
+    -- integer → string conversion of a variable: the arm of run.go convert the regenerated table selects, as a code point
+    (match s.bool?, w.nat?, n.nat? with
+     | some s, some w, some n =>
+       let x := BitVec.ofNat w n
+       let y := match valueConvAct Generated.C02.convertArms with
+         | some .reflectConvert => s!"r:{reflectIntString s x}"
+         | _ => "unmodelled"
+       s!"y={y} g=r:{GoInt.intToString s x}"
+     | _, _, _ => "bad-op")
   | [.atom "conv", s, w, n, _s', w'] =>
     (match s.bool?, w.nat?, n.nat?, w'.nat? with
      | some s, some w, some n, some w' =>
